@@ -45,6 +45,8 @@ pub struct GenOpts {
     pub adjacent_optional_words: bool,
     /// an unrestricted positional may be declared after strict ones (`strict.many()`, `REST.many()`)
     pub any_after_strict: bool,
+    /// an adjacent group may contain another adjacent group as its last member
+    pub adjacent_in_adjacent: bool,
     /// custom help/version flag names
     pub custom_help: bool,
     /// chains of `adjacent()` commands (`cmd1 --a cmd2 --b cmd1 ..`)
@@ -82,6 +84,7 @@ impl GenOpts {
             any: false,
             adjacent_optional_words: false,
             any_after_strict: false,
+            adjacent_in_adjacent: false,
             custom_help: false,
             adjacent_cmds: false,
         }
@@ -116,6 +119,7 @@ impl GenOpts {
             any: false,
             adjacent_optional_words: false,
             any_after_strict: false,
+            adjacent_in_adjacent: false,
             custom_help: false,
             adjacent_cmds: false,
         }
@@ -685,6 +689,15 @@ impl<'a> Pool<'a> {
             }
             if self.rng.chance(1, 3) {
                 fields.push(Spec::Item(self.flag_item(Leaf::Switch)));
+            }
+            if self.o.adjacent_in_adjacent && self.rng.chance(1, 3) {
+                // `--rect --width W [--point X Y]`
+                let inner = Spec::Adj(vec![
+                    Spec::Item(self.flag_item(Leaf::ReqFlag)),
+                    Spec::Item(self.pos_item(Strict::Any)),
+                    Spec::Item(self.pos_item(Strict::Any)),
+                ]);
+                fields.push(Spec::wrap(W::Optional { catch: false }, self.id(), inner));
             }
         }
         // documentation wrappers inside and around the block (`group_help` on a member, on the
